@@ -854,6 +854,9 @@ archive_read_format_7zip_read_header(struct archive_read *a,
 		}
 		free(symname);
 		archive_entry_set_size(entry, 0);
+		/* The body was the link target: the client gets no data,
+		 * so the entry ends at offset 0. */
+		zip->entry_offset = 0;
 	}
 
 	/* Set up a more descriptive format name. */
